@@ -140,7 +140,13 @@ def run_hypothesis(td: TestDef, n_examples: int, seed: int, col: Collector, tier
             state["after_fail"] += 1
             if state["after_fail"] > state["budget"]:
                 return  # budget used up: stop executing (ends the shrinker quickly)
-        res = td.run(spec)
+        if state.get("harness") is not None:
+            raise state["harness"]  # do not spend time shrinking a harness problem
+        try:
+            res = td.run(spec)
+        except HarnessError as e:
+            state["harness"] = e
+            raise
         col.record(td.name, spec, res)
         if not res.violations:
             return
@@ -180,6 +186,8 @@ def run_hypothesis(td: TestDef, n_examples: int, seed: int, col: Collector, tier
             pass
         except hypothesis.errors.FailedHealthCheck as e:
             raise HarnessError(f"health check failed in {td.name}: {e}")
+        except HarnessError:
+            raise
         except BaseException as e:  # Flaky, shrink-budget artefacts, ...
             if not state["failed"]:
                 raise HarnessError(
